@@ -1,9 +1,183 @@
-(* C19 property theorems: statements only, each closed by [exact]. *)
+(* C19 property theorems: statements only, each closed by [exact].
+   Vocabulary (all in Model/C19.v): [clean_pass net limit d] = DiskSpaceManager._clean(net) with that limit on
+   database state d: (list handed to delete_blobs, state after); [used_mb] = the usage the pass computes
+   (int(bytes/2^20) per class); [pass_rows] = the rows behind the deletion list; [credited] = the megabytes the
+   loop accounts for them (int(length/2^20) each); [excess] = usage - limit; [run] = a history of passes,
+   clean() calls and blobs (re)appearing. *)
 From Coq Require Import NArith ZArith List Bool.
 From LV Require Import Model.C19 Proofs.C19.
 Import ListNotations.
 Local Open Scope N_scope.
 
+(* Nothing is removed when usage is within the limit: for every state, both classes, every limit. *)
+Theorem C19_no_delete_within_limit : forall d net limit,
+  (Z.of_N (used_mb net d) <= limit)%Z -> clean_pass net limit d = ([], d).
+Proof. exact no_delete_within_limit. Qed.
+Print Assumptions C19_no_delete_within_limit.
+
+(* Content storage unlimited (limit 0): the content pass removes nothing, whatever the usage. *)
 Theorem C19_unlimited_content_untouched : forall d, clean_pass false 0 d = ([], d).
 Proof. exact unlimited_content_untouched. Qed.
 Print Assumptions C19_unlimited_content_untouched.
+
+(* Every hash a pass deletes is the hash of a blob row with is_mine = 0 ... *)
+Theorem C19_never_own : forall net limit d h, In h (fst (clean_pass net limit d)) ->
+  exists b, In b (blobs d) /\ b_hash b = h /\ b_mine b = false.
+Proof. exact never_own. Qed.
+Print Assumptions C19_never_own.
+
+(* ... so (blob_hash being the primary key) every own blob keeps its row and its file. *)
+Theorem C19_own_blobs_kept : forall net limit d b, hashes_unique d -> In b (blobs d) -> b_mine b = true ->
+  In b (blobs (snd (clean_pass net limit d))) /\
+  (In (b_hash b) (disk d) -> In (b_hash b) (disk (snd (clean_pass net limit d)))).
+Proof. exact own_kept. Qed.
+Print Assumptions C19_own_blobs_kept.
+
+(* Over every history of passes (any class, any limit), clean() calls and blobs appearing: a hash that is the
+   user's own is in no deletion list, stays own, and keeps its file. *)
+Theorem C19_never_own_history : forall ops d h, hashes_unique d -> In h (own_hashes d) ->
+  (forall dl, In dl (fst (run ops d)) -> ~ In h dl) /\ In h (own_hashes (snd (run ops d))) /\
+  (In h (disk d) -> In h (disk (snd (run ops d)))).
+Proof. exact history_never_own. Qed.
+Print Assumptions C19_never_own_history.
+
+(* A pass removes blobs only from its own storage class, and only when that class is over its limit. *)
+Theorem C19_only_over_limit_class : forall net limit d h, In h (fst (clean_pass net limit d)) ->
+  (limit < Z.of_N (used_mb net d))%Z /\ in_class net d h.
+Proof. exact only_over_limit_class. Qed.
+Print Assumptions C19_only_over_limit_class.
+
+(* Nothing but the deleted hashes disappears; the other tables are untouched. *)
+Theorem C19_only_deleted_disappear : forall net limit d b, In b (blobs d) ->
+  ~ In (b_hash b) (fst (clean_pass net limit d)) -> In b (blobs (snd (clean_pass net limit d))).
+Proof. exact only_deleted_disappear. Qed.
+Print Assumptions C19_only_deleted_disappear.
+
+(* After a pass usage is within the limit whenever enough removable blobs existed (recomputed usage of the
+   state after the pass; needs the tables to be keyed by stream_hash and descriptors below 1 MiB, see the two
+   witnesses below for why). *)
+Theorem C19_reaches_limit : forall net limit d, tables_ok d -> net = true \/ limit <> 0%Z -> enough net limit d ->
+  (Z.of_N (used_mb net (snd (clean_pass net limit d))) <= limit)%Z.
+Proof. exact reaches_limit. Qed.
+Print Assumptions C19_reaches_limit.
+
+(* The same in the pass's own accounting, with no hypothesis on the tables: the loop ends with available >= 0. *)
+Theorem C19_reaches_limit_accounting : forall net limit d, net = true \/ limit <> 0%Z -> enough net limit d ->
+  (excess net limit d <= Z.of_N (credited (pass_rows net limit d)))%Z \/ (excess net limit d <= 0)%Z.
+Proof. exact reaches_limit_accounting. Qed.
+Print Assumptions C19_reaches_limit_accounting.
+
+(* When the removable blobs do not suffice, all of them go (and nothing else can). *)
+Theorem C19_exhausts_when_not_enough : forall net limit d, net = true \/ limit <> 0%Z ->
+  (limit < Z.of_N (used_mb net d))%Z -> ~ enough net limit d -> pass_rows net limit d = cands net d.
+Proof. exact exhausts_when_not_enough. Qed.
+Print Assumptions C19_exhausts_when_not_enough.
+
+(* Bounded overshoot, in the pass's whole-megabyte accounting: accounted space freed < excess + MB of the last
+   deleted blob (deletion stops at the first blob that brings the accounted usage within the limit). *)
+Theorem C19_bounded_overshoot : forall net limit d, pass_rows net limit d <> [] ->
+  (Z.of_N (credited (pass_rows net limit d))
+   < excess net limit d + Z.of_N (mb (r_len (last (pass_rows net limit d) row0))))%Z.
+Proof. exact bounded_overshoot. Qed.
+Print Assumptions C19_bounded_overshoot.
+
+(* With blobs of at most 2 MiB (the protocol maximum): accounted space freed <= excess + 1 MB. *)
+Theorem C19_bounded_overshoot_2mib : forall net limit d,
+  (forall b, In b (blobs d) -> b_len b <= 2 * MiB) -> pass_rows net limit d <> [] ->
+  (Z.of_N (credited (pass_rows net limit d)) <= excess net limit d + 1)%Z.
+Proof. exact bounded_overshoot_2mib. Qed.
+Print Assumptions C19_bounded_overshoot_2mib.
+
+(* Real bytes: what the whole-megabyte accounting allows is up to one uncounted megabyte per deleted blob:
+   bytes removed < (excess + MB of the last deleted blob + number of deleted rows) MiB. *)
+Theorem C19_real_bytes_bound : forall net limit d, hashes_unique d -> pass_rows net limit d <> [] ->
+  (Z.of_N (freed_bytes (fst (clean_pass net limit d)) d)
+   < (excess net limit d + Z.of_N (mb (r_len (last (pass_rows net limit d) row0)))
+      + Z.of_nat (length (pass_rows net limit d))) * Z.of_N MiB)%Z.
+Proof. exact real_bytes_bound. Qed.
+Print Assumptions C19_real_bytes_bound.
+
+(* A second pass right after a pass deletes nothing and leaves the state unchanged (hence so does any number
+   of repeated passes). *)
+Theorem C19_second_pass_noop : forall net limit d, tables_ok d ->
+  clean_pass net limit (snd (clean_pass net limit d)) = ([], snd (clean_pass net limit d)).
+Proof. exact second_pass_noop. Qed.
+Print Assumptions C19_second_pass_noop.
+
+(* clean() (content pass then network pass) run twice: the second run deletes nothing. *)
+Theorem C19_clean_twice_noop : forall cl nl d, tables_ok d ->
+  clean cl nl (snd (clean cl nl d)) = (([], []), snd (clean cl nl d)).
+Proof. exact clean_twice_noop. Qed.
+Print Assumptions C19_clean_twice_noop.
+
+(* The invariants the theorems assume are kept by a pass. *)
+Theorem C19_wf_preserved : forall net limit d, wf d -> wf (snd (clean_pass net limit d)).
+Proof. exact wf_pass. Qed.
+Print Assumptions C19_wf_preserved.
+
+(* A history can be cut anywhere (the correspondence steps the extracted [run] one operation at a time). *)
+Theorem C19_run_app : forall ops1 ops2 d,
+  run (ops1 ++ ops2) d =
+  (fst (run ops1 d) ++ fst (run ops2 (snd (run ops1 d))), snd (run ops2 (snd (run ops1 d)))).
+Proof. exact run_app. Qed.
+Print Assumptions C19_run_app.
+
+(* The expression before commit 9764e59 ("limit == 0 if not network else available >= 0"): with a non-zero
+   content limit it never returned early, so any state with a candidate lost a blob; concrete witness:
+   3 MB used, limit 100 MB, blob 1 deleted, while the repaired test deletes nothing. *)
+Theorem C19_old_condition_refuted :
+  wf witness_db /\ (Z.of_N (used_mb false witness_db) <= 100)%Z /\
+  fst (clean_pass_old false 100 witness_db) = [1] /\ clean_pass false 100 witness_db = ([], witness_db).
+Proof. exact old_condition_refuted. Qed.
+Print Assumptions C19_old_condition_refuted.
+
+Theorem C19_old_always_deletes : forall limit d, limit <> 0%Z -> cands false d <> [] ->
+  fst (clean_pass_old false limit d) <> [].
+Proof. exact old_always_deletes. Qed.
+Print Assumptions C19_old_always_deletes.
+
+(* ---- non-vacuity: the hypotheses are inhabited by a state on which things really happen ---- *)
+Theorem C19_ex_wf : wf ex_db /\ wf sweep_db.
+Proof. exact (conj ex_db_wf sweep_db_wf). Qed.
+Print Assumptions C19_ex_wf.
+
+Theorem C19_ex_hyps : (enough false 5 ex_db /\ enough true 1 ex_db) /\
+  (pass_rows false 5 ex_db <> [] /\ pass_rows true 1 ex_db <> []) /\ (In 21 (own_hashes ex_db) /\ In 21 (disk ex_db)) /\
+  (~ enough false 1 sweep_db /\ (1 < Z.of_N (used_mb false sweep_db))%Z).
+Proof. exact (conj ex_db_enough (conj ex_db_rows (conj ex_db_own sweep_db_not_enough))). Qed.
+Print Assumptions C19_ex_hyps.
+
+(* content: 8 MB used (4 content + 4 own), limit 5: the two oldest 2 MiB blobs go, 4 MB remain *)
+Example C19_ex_content :
+  (used_mb false ex_db, fst (clean_pass false 5 ex_db), used_mb false (snd (clean_pass false 5 ex_db)))
+  = (8, [31; 32], 4).
+Proof. vm_compute. reflexivity. Qed.
+(* network: 3 MB used, limit 1: the largest blob goes first; the pass stops there *)
+Example C19_ex_network :
+  (used_mb true ex_db, fst (clean_pass true 1 ex_db), used_mb true (snd (clean_pass true 1 ex_db))) = (3, [40], 1).
+Proof. vm_compute. reflexivity. Qed.
+(* clean() then clean() again *)
+Example C19_ex_clean :
+  (fst (clean 5 1 ex_db), fst (clean 5 1 (snd (clean 5 1 ex_db)))) = (([31; 32], [40]), ([], [])).
+Proof. vm_compute. reflexivity. Qed.
+
+(* The literal whole-megabyte reading at work: 2 MB used, limit 1 MB (excess 1), three 0.95 MiB blobs each
+   accounted as 0 MB: all three and then all three descriptors are deleted, accounted space freed 0 MB,
+   2989941 bytes gone.  Allowed by C19_bounded_overshoot / C19_real_bytes_bound (6 rows, so < 7 MiB). *)
+Example C19_submib_sweep_witness :
+  (used_mb false sweep_db, fst (clean_pass false 1 sweep_db), credited (pass_rows false 1 sweep_db),
+   freed_bytes (fst (clean_pass false 1 sweep_db)) sweep_db)
+  = (2, [1; 2; 3; 11; 12; 13], 0, 2989941).
+Proof. vm_compute. reflexivity. Qed.
+
+(* Why C19_reaches_limit needs [tables_ok].  (a) a 1 MiB stream descriptor is credited 1 MB although usage never
+   counted it: 4 MB used, limit 2, enough by the accounting, 3 MB used afterwards. *)
+Example C19_sd_credit_witness :
+  (used_mb false sd_credit_db, credited (cands false sd_credit_db), fst (clean_pass false 2 sd_credit_db),
+   used_mb false (snd (clean_pass false 2 sd_credit_db))) = (4, 2, [1; 2], 3).
+Proof. vm_compute. reflexivity. Qed.
+(* (b) two file rows for one stream: the same blob is credited twice. *)
+Example C19_dup_file_witness :
+  (used_mb false dup_file_db, credited (cands false dup_file_db), fst (clean_pass false 2 dup_file_db),
+   used_mb false (snd (clean_pass false 2 dup_file_db))) = (4, 2, [1; 1], 3).
+Proof. vm_compute. reflexivity. Qed.
